@@ -256,6 +256,9 @@ func (ref *FileEnt) WStat(ctx context.Context, dir p9p.Dir) error {
 	defer ref.Unlock()
 
 	if dir.Mode != ^uint32(0) {
+		if (dir.Mode^ref.Info.Mode)&p9p.DMDIR != 0 {
+			return p9p.MessageRerror{Ename: "wstat -- attempt to change directory"}
+		}
 		ref.Info.Mode = dir.Mode
 	}
 	if dir.UID != "" {
